@@ -63,6 +63,9 @@ CHECKS = {
     "C11": ("proof",
             "Lean theorems C11_* (binary search = first cumulative value ≥ roll, weight/interval measure, rejection sampling, tournament rank, randint/uniform ranges, Sattolo single n-cycle, p-best, min-max) for all vectors and all draws; tied to the code by exact correspondence on exhaustive {0,1,2}^n lattices and by mirrored-draw replay of the stochastic primitives.",
             "§6 C11", "Lean 4 proof + exact model/implementation correspondence (exhaustive small lattices, mirrored RNG draws)", ""),
+    "C20": ("proof",
+            "Lean theorems C20_*: with the per-call copy discipline the shared shift table is never altered and every call of every history uses the shift determined by the pristine table and its own D (C20_pure_copy); F8's in-place update is provably history independent; the in-place F5/F20 updates are not (counterexamples by decide = finding F10, repaired); F5's shift is the CEC prescription; rows are independent; Sphere, Schwefel 1.2, Elliptic, Rosenbrock, Rastrigin, Griewank, Weierstrass are ≥ 0 with equality at their centre (bounded-cosine parameters), shifted problems ≥ bias with equality at the shift, the hybrid composition ≥ f_bias with equality at the first optimum. Tied by fresh spawned interpreters vs long interleavings, rows vs batch, argument checksums, lower bound and attainment at the CEC2005 reference optimum, and the model's effective shift after a history.",
+            "§6 C20", "Lean 4 proof of purity/bookkeeping and real-valued bounds + differential fresh-vs-history runs (float values partial)", "matmul/cos/exp are floats: values observed at relative 1e-9; Ackley, Schwefel 2.6/2.13, Scaffer bounds are not modelled (observed only)"),
 }
 
 NOT_YET = "check under construction in this session; not yet registered"
